@@ -42,6 +42,12 @@ def algStep (s : AlgSt) (toks : List String) : AlgSt × String :=
       let pts := idxs.map (fun j => (nodeOf j, evalPoly (groupPoly s) (nodeOf j)))
       (s, natToHex32 (recoverAtZero pts).val)
     | none => (s, "bad-op")
+  | "dealcheck" :: j :: rest =>
+    -- `dealcheck <victim> <broadcast…> | <dealer's real coefficients…>`: the deal carries the real polynomial
+    match j.toNat?, (rest.takeWhile (· != "|")).mapM parseFr, ((rest.dropWhile (· != "|")).drop 1).mapM parseFr with
+    | some j, some bc, some real =>
+      (s, if acceptDeal bc real (nodeOf j) (evalPoly real (nodeOf j)) then "accept" else "refuse")
+    | _, _, _ => (s, "bad-op")
   | ["secret"] => (s, natToHex32 (evalPoly (groupPoly s) (Fr.ofNat 0)).val)
   | _ => (s, "bad-op")
 
